@@ -5,16 +5,21 @@
    A. Whatever the handlers do to the state, the traversal keeps the buffer's frame, only adds
       masks, and changes no cell that was not drawable when it started (frame_at,
       do_expose_re_frame, flush_re_frame).
-   B. Fix a screen cell q0 and a visibility function V.  Let St s s' say: "if s' is not faulty
-      and does not cover q0, then neither is s faulty nor does it cover q0, and if s reads V on
-      the windows that matter at q0 (rel_ids V T0 q0), so does s'".  If every handler call is
-      such a step (from a state allowed by Gd, which it keeps), then a traversal that ends in a
-      non-faulty state not covering q0 has painted q0 -- if q0 was drawable -- with what the
-      owner according to V paints there (do_expose_re_q0), and the render loop leaves q0 with
-      that content if q0 lies in one of the rectangles and untouched otherwise (flush_re_q0). *)
+   B. Fix a screen cell q0, a visibility function V and a parent function P (the parents in the
+      tree T0 the traversal walks).  A window x is "attached and visible" in s (att P s x) when
+      its parent in s is still P x and it is visible.  Let St s s' say: "if s' is not faulty and
+      does not cover q0, then neither is s faulty nor does it cover q0, and if att P s agrees
+      with V on the windows that matter at q0 (rel_ids V T0 q0), so does att P s'".  If every
+      handler call is such a step (from a state allowed by Gd, which it keeps), then a
+      traversal that ends in a non-faulty state not covering q0 has painted q0 -- if q0 was
+      drawable -- with what the owner according to V paints there (do_expose_re_q0).
+   C. The render loop: each rectangle is walked on the tree of the state it starts in; if every
+      handler call also keeps the owner of q0 in the current tree (unless q0 gets covered), the
+      loop leaves q0 with what its owner IN THE FINAL TREE paints, if q0 lies in one of the
+      rectangles, and untouched otherwise (flush_re_q0). *)
 From Coq Require Import ZArith List Bool Lia ZifyBool.
 From Tickit Require Import RectDefs RectProofs WinRectSet WinRectSetProofs WinDefs WinSpec
-  WinExposeProofs WinFlushProofs WinLogDisjoint WinScreenInv WinLocA WinLocTree WinReDefs
+  WinExposeProofs WinFlushProofs WinLogDisjoint WinScreenInv WinLocA WinLocTree WinInput WinReDefs
   WinReProofs WinReLive.
 Import ListNotations.
 Local Open Scope Z_scope.
@@ -47,10 +52,12 @@ Proof.
 Qed.
 
 Lemma expose_kids_re_fst_inv (P : root -> Prop) rh :
-  rh_keeps P rh -> forall r l sb, P (fst sb) -> P (fst (expose_kids_re rh r l sb)).
+  rh_keeps P rh -> forall pid r l sb, P (fst sb) -> P (fst (expose_kids_re rh pid r l sb)).
 Proof.
-  intros Hk r. induction l as [|c rest IH]; intros sb HP; [exact HP|].
-  cbn [expose_kids_re]. destruct (negb (vis_now (fst sb) (w_id (t_info c)))); [apply IH; exact HP|].
+  intros Hk pid r. induction l as [|c rest IH]; intros sb HP; [exact HP|].
+  cbn [expose_kids_re].
+  destruct (negb (child_now (fst sb) pid (w_id (t_info c)))); [apply IH; exact HP|].
+  destruct (negb (vis_now (fst sb) (w_id (t_info c)))); [apply IH; exact HP|].
   apply IH. cbn [fst].
   destruct (r_intersect r (w_rect (t_info c))) as [ex|]; [|exact HP].
   cbn [fst]. apply (do_expose_re_fst_inv P rh Hk). exact HP.
@@ -70,7 +77,7 @@ Section trav.
       same_frame b b' /\ mask_grows b b' /\
       forall q, rb_drawable b q = false -> rb_cells b' q = rb_cells b q.
 
-  (* one visible child: expose it (if it meets the rectangle), restore, mask it *)
+  (* one visible child: expose it (if it meets the rectangle) and restore *)
   Definition kid_out (c : wtree) (r : rect) (s : root) (b : rbuf) : root * rbuf :=
     let ci := t_info c in
     match r_intersect r (w_rect ci) with
@@ -81,42 +88,44 @@ Section trav.
     | None => (s, b)
     end.
 
-  Lemma expose_kids_re_cons r c rest s b :
-    expose_kids_re rh r (c :: rest) (s, b) =
-    if negb (vis_now s (w_id (t_info c))) then expose_kids_re rh r rest (s, b) else
-    expose_kids_re rh r rest (fst (kid_out c r s b), rb_mask_rect (snd (kid_out c r s b)) (w_rect (t_info c))).
+  (* ... and mask it if it is still a child *)
+  Definition kid_masked (pid : Z) (c : wtree) (o : root * rbuf) : rbuf :=
+    if child_now (fst o) pid (w_id (t_info c)) then rb_mask_rect (snd o) (w_rect (t_info c)) else snd o.
+
+  Lemma expose_kids_re_cons pid r c rest s b :
+    expose_kids_re rh pid r (c :: rest) (s, b) =
+    if negb (child_now s pid (w_id (t_info c))) then expose_kids_re rh pid r rest (s, b) else
+    if negb (vis_now s (w_id (t_info c))) then expose_kids_re rh pid r rest (s, b) else
+    expose_kids_re rh pid r rest (fst (kid_out c r s b), kid_masked pid c (kid_out c r s b)).
   Proof.
-    cbn [expose_kids_re fst snd]. unfold kid_out, child_frame.
+    cbn [expose_kids_re fst snd]. unfold kid_masked, kid_out, child_frame.
+    destruct (negb (child_now s pid (w_id (t_info c)))); [reflexivity|].
     destruct (negb (vis_now s (w_id (t_info c)))); [reflexivity|].
     destruct (r_intersect r (w_rect (t_info c))); reflexivity.
   Qed.
 
-  Lemma kid_step c r s b :
+  (* the buffer after the child's expose and the restore: the frame and the masks are back *)
+  Lemma kid_out_fields c r s b :
     frame_at c -> pre b r ->
     let ci := t_info c in
-    let b4 := rb_mask_rect (snd (kid_out c r s b)) (w_rect ci) in
-    pre b4 r /\ same_frame b b4 /\
-    (forall q, rb_mask b4 q =
-               match rb_mask b q with
-               | Some k => Some k
-               | None => if cell_inb (w_rect ci) (rel b q) && rb_inb b q then Some (rb_depth b) else None
-               end) /\
-    (forall q, rb_drawable b q && cell_inb (w_rect ci) (rel b q) = false -> rb_cells b4 q = rb_cells b q) /\
+    let b0 := snd (kid_out c r s b) in
+    pre b0 r /\ same_frame b b0 /\ (forall q, rb_mask b0 q = rb_mask b q) /\
+    (forall q, rb_drawable b q && cell_inb (w_rect ci) (rel b q) = false -> rb_cells b0 q = rb_cells b q) /\
     (forall ex, r_intersect r (w_rect ci) = Some ex -> forall q,
-       rb_cells b4 q =
+       rb_cells b0 q =
        rb_cells (snd (do_expose_re rh c (r_translate ex (- top (w_rect ci)) (- left (w_rect ci)))
                                    (s, child_frame b ex (top (w_rect ci)) (left (w_rect ci))))) q).
   Proof.
     intros Hc Hpre. cbv zeta.
-    set (b0 := snd (kid_out c r s b)).
-    assert (H0 : same_frame b b0 /\ (forall q, rb_mask b0 q = rb_mask b q) /\
+    assert (H0 : same_frame b (snd (kid_out c r s b)) /\
+                 (forall q, rb_mask (snd (kid_out c r s b)) q = rb_mask b q) /\
                  (forall q, rb_drawable b q && cell_inb (w_rect (t_info c)) (rel b q) = false ->
-                            rb_cells b0 q = rb_cells b q) /\
+                            rb_cells (snd (kid_out c r s b)) q = rb_cells b q) /\
                  (forall ex, r_intersect r (w_rect (t_info c)) = Some ex -> forall q,
-                    rb_cells b0 q =
+                    rb_cells (snd (kid_out c r s b)) q =
                     rb_cells (snd (do_expose_re rh c (r_translate ex (- top (w_rect (t_info c))) (- left (w_rect (t_info c))))
                                    (s, child_frame b ex (top (w_rect (t_info c))) (left (w_rect (t_info c)))))) q)).
-    { subst b0. unfold kid_out. destruct (r_intersect r (w_rect (t_info c))) as [ex|] eqn:Hex; cbn [snd fst].
+    { unfold kid_out. destruct (r_intersect r (w_rect (t_info c))) as [ex|] eqn:Hex; cbn [snd fst].
       - pose proof (child_pre b r c Hpre ex Hex) as Hp1.
         destruct (Hc _ s _ Hp1) as (Hf2 & Hg2 & Hc2).
         destruct (restore_child b ex _ _ _ Hf2) as (Hf3 & Hc3 & _).
@@ -129,37 +138,88 @@ Section trav.
       - split; [apply same_frame_refl|]. split; [reflexivity|]. split; [reflexivity|].
         intros ex' Hex'. discriminate. }
     destruct H0 as (Hf0 & Hm0 & Hc0 & Hx0).
-    destruct (mask_rect_fields b0 (w_rect (t_info c))) as (Hf4 & Hc4 & Hm4).
-    set (b4 := rb_mask_rect b0 (w_rect (t_info c))) in *.
-    assert (Hf04 : same_frame b b4) by (eapply same_frame_trans; eassumption).
-    assert (Hmask : forall q, rb_mask b4 q =
-               match rb_mask b q with
-               | Some k => Some k
-               | None => if cell_inb (w_rect (t_info c)) (rel b q) && rb_inb b q then Some (rb_depth b) else None
-               end).
-    { intros q. rewrite Hm4, Hm0, (same_frame_rel _ _ q Hf0), (same_frame_inb _ _ q Hf0).
-      destruct Hf0 as (_ & _ & _ & _ & _ & Hd0 & _). rewrite Hd0. reflexivity. }
-    split; [|split; [exact Hf04|split; [exact Hmask|split]]].
-    - destruct Hpre as (Hok & Hci & Hw). split; [|split].
-      + intros q k Hk. rewrite Hmask in Hk.
-        destruct Hf04 as (_ & _ & _ & _ & _ & Hd & _). rewrite Hd.
-        destruct (rb_mask b q) as [k'|] eqn:Ek.
-        * injection Hk as <-. apply (Hok q k' Ek).
-        * destruct (cell_inb (w_rect (t_info c)) (rel b q) && rb_inb b q); [|discriminate].
-          injection Hk as <-. lia.
-      + intros q Hq. rewrite (same_frame_in_clip _ _ q Hf04) in Hq.
-        rewrite (same_frame_inb _ _ q Hf04). apply Hci; exact Hq.
-      + intros q Hq. rewrite (same_frame_rel _ _ q Hf04). apply Hw.
-        rewrite drawable_spec in Hq |- *. rewrite (same_frame_in_clip _ _ q Hf04) in Hq.
-        apply andb_true_iff in Hq. destruct Hq as [Hq1 Hq2]. rewrite Hq1. cbn [andb].
-        rewrite Hmask in Hq2. destruct (rb_mask b q); [discriminate|reflexivity].
-    - intros q Hq. rewrite Hc4. apply Hc0. exact Hq.
-    - intros ex Hex q. rewrite Hc4. apply Hx0. exact Hex.
+    split; [|split; [exact Hf0|split; [exact Hm0|split; [exact Hc0|exact Hx0]]]].
+    destruct Hpre as (Hok & Hci & Hw). split; [|split].
+    - intros q k Hk. rewrite Hm0 in Hk. destruct Hf0 as (_ & _ & _ & _ & _ & Hd & _). rewrite Hd.
+      apply (Hok q k Hk).
+    - intros q Hq. rewrite (same_frame_in_clip _ _ q Hf0) in Hq.
+      rewrite (same_frame_inb _ _ q Hf0). apply Hci; exact Hq.
+    - intros q Hq. rewrite (same_frame_rel _ _ q Hf0). apply Hw.
+      rewrite drawable_spec in Hq |- *. rewrite (same_frame_in_clip _ _ q Hf0), Hm0 in Hq. exact Hq.
   Qed.
 
-  Lemma kids_frame r l :
+  (* ... and after masking the child's rectangle *)
+  Lemma mask_step b r (k : rect) :
+    pre b r ->
+    let b4 := rb_mask_rect b k in
+    pre b4 r /\ same_frame b b4 /\ rb_cells b4 = rb_cells b /\
+    (forall q, rb_mask b4 q =
+               match rb_mask b q with
+               | Some d => Some d
+               | None => if cell_inb k (rel b q) && rb_inb b q then Some (rb_depth b) else None
+               end).
+  Proof.
+    intros Hpre. cbv zeta. destruct (mask_rect_fields b k) as (Hf4 & Hc4 & Hm4).
+    split; [|split; [exact Hf4|split; [exact Hc4|exact Hm4]]].
+    destruct Hpre as (Hok & Hci & Hw). split; [|split].
+    - intros q d Hk. rewrite Hm4 in Hk.
+      destruct Hf4 as (_ & _ & _ & _ & _ & Hd & _). rewrite Hd.
+      destruct (rb_mask b q) as [d'|] eqn:Ek.
+      + injection Hk as <-. apply (Hok q d' Ek).
+      + destruct (cell_inb k (rel b q) && rb_inb b q); [|discriminate]. injection Hk as <-. lia.
+    - intros q Hq. rewrite (same_frame_in_clip _ _ q Hf4) in Hq.
+      rewrite (same_frame_inb _ _ q Hf4). apply Hci; exact Hq.
+    - intros q Hq. rewrite (same_frame_rel _ _ q Hf4). apply Hw.
+      rewrite drawable_spec in Hq |- *. rewrite (same_frame_in_clip _ _ q Hf4) in Hq.
+      apply andb_true_iff in Hq. destruct Hq as [Hq1 Hq2]. rewrite Hq1. cbn [andb].
+      rewrite Hm4 in Hq2. destruct (rb_mask b q); [discriminate|reflexivity].
+  Qed.
+
+  (* one child, whether it ends up masked or not *)
+  Lemma kid_step pid c r s b :
+    frame_at c -> pre b r ->
+    let ci := t_info c in
+    let o := kid_out c r s b in
+    let b4 := kid_masked pid c o in
+    pre b4 r /\ same_frame b b4 /\ mask_grows b b4 /\
+    (forall q, rb_mask b4 q =
+               if child_now (fst o) pid (w_id ci) then
+                 match rb_mask b q with
+                 | Some k => Some k
+                 | None => if cell_inb (w_rect ci) (rel b q) && rb_inb b q then Some (rb_depth b) else None
+                 end
+               else rb_mask b q) /\
+    (forall q, rb_drawable b q && cell_inb (w_rect ci) (rel b q) = false -> rb_cells b4 q = rb_cells b q) /\
+    (forall ex, r_intersect r (w_rect ci) = Some ex -> forall q,
+       rb_cells b4 q =
+       rb_cells (snd (do_expose_re rh c (r_translate ex (- top (w_rect ci)) (- left (w_rect ci)))
+                                   (s, child_frame b ex (top (w_rect ci)) (left (w_rect ci))))) q).
+  Proof.
+    intros Hc Hpre. cbv zeta.
+    destruct (kid_out_fields c r s b Hc Hpre) as (Hp0 & Hf0 & Hm0 & Hc0 & Hx0).
+    unfold kid_masked. destruct (child_now (fst (kid_out c r s b)) pid (w_id (t_info c))).
+    - destruct (mask_step _ r (w_rect (t_info c)) Hp0) as (Hp4 & Hf4 & Hc4 & Hm4).
+      assert (Hmask : forall q, rb_mask (rb_mask_rect (snd (kid_out c r s b)) (w_rect (t_info c))) q =
+                 match rb_mask b q with
+                 | Some k => Some k
+                 | None => if cell_inb (w_rect (t_info c)) (rel b q) && rb_inb b q then Some (rb_depth b) else None
+                 end).
+      { intros q. rewrite Hm4, Hm0, (same_frame_rel _ _ q Hf0), (same_frame_inb _ _ q Hf0).
+        destruct Hf0 as (_ & _ & _ & _ & _ & Hd0 & _). rewrite Hd0. reflexivity. }
+      split; [exact Hp4|]. split; [eapply same_frame_trans; eassumption|]. split.
+      { intros q. rewrite Hmask. destruct (rb_mask b q); [left; reflexivity|].
+        destruct (cell_inb (w_rect (t_info c)) (rel b q) && rb_inb b q);
+          [right; split; reflexivity|left; reflexivity]. }
+      split; [exact Hmask|]. split.
+      + intros q Hq. rewrite Hc4. apply Hc0. exact Hq.
+      + intros ex Hex q. rewrite Hc4. apply Hx0. exact Hex.
+    - split; [exact Hp0|]. split; [exact Hf0|]. split; [intros q; left; apply Hm0|].
+      split; [exact Hm0|]. split; [exact Hc0|exact Hx0].
+  Qed.
+
+  Lemma kids_frame pid r l :
     Forall frame_at l -> forall s b, pre b r ->
-      let b' := snd (expose_kids_re rh r l (s, b)) in
+      let b' := snd (expose_kids_re rh pid r l (s, b)) in
       pre b' r /\ same_frame b b' /\ mask_grows b b' /\
       forall q, rb_drawable b q = false -> rb_cells b' q = rb_cells b q.
   Proof.
@@ -167,13 +227,10 @@ Section trav.
     - cbn [expose_kids_re snd]. split; [exact Hpre|]. split; [apply same_frame_refl|].
       split; [apply mask_grows_refl|]. reflexivity.
     - rewrite expose_kids_re_cons.
+      destruct (negb (child_now s pid (w_id (t_info c)))); [apply IH; exact Hpre|].
       destruct (negb (vis_now s (w_id (t_info c)))); [apply IH; exact Hpre|].
-      destruct (kid_step c r s b Hc Hpre) as (Hp4 & Hf4 & Hm4 & Hc4 & _).
-      set (b4 := rb_mask_rect (snd (kid_out c r s b)) (w_rect (t_info c))) in *.
-      assert (Hg4 : mask_grows b b4).
-      { intros q. rewrite Hm4. destruct (rb_mask b q); [left; reflexivity|].
-        destruct (cell_inb (w_rect (t_info c)) (rel b q) && rb_inb b q);
-          [right; split; reflexivity|left; reflexivity]. }
+      destruct (kid_step pid c r s b Hc Hpre) as (Hp4 & Hf4 & Hg4 & _ & Hc4 & _).
+      set (b4 := kid_masked pid c (kid_out c r s b)) in *.
       destruct (IH (fst (kid_out c r s b)) b4 Hp4) as (Hp5 & Hf5 & Hg5 & Hc5).
       split; [exact Hp5|]. split; [eapply same_frame_trans; eassumption|].
       split; [apply (mask_grows_trans b b4 _ Hf4 Hg4 Hg5)|].
@@ -186,8 +243,8 @@ Section trav.
   Proof.
     apply (wtree_ind2 frame_at). intros i ch Hch r s b Hpre. cbv zeta.
     rewrite do_expose_re_unfold, Hsnd.
-    destruct (kids_frame r ch Hch s b Hpre) as (Hp1 & Hf1 & Hg1 & Hc1).
-    set (b1 := snd (expose_kids_re rh r ch (s, b))) in *.
+    destruct (kids_frame (w_id i) r ch Hch s b Hpre) as (Hp1 & Hf1 & Hg1 & Hc1).
+    set (b1 := snd (expose_kids_re rh (w_id i) r ch (s, b))) in *.
     destruct (paint_handler_fields app (w_id i) r b1) as (Hf2 & Hm2 & Hc2).
     split; [eapply same_frame_trans; eassumption|]. split.
     - intros q. rewrite Hm2. apply Hg1.
@@ -216,20 +273,28 @@ Section trav.
   Qed.
 
   (* ---------------------------------------------------------------------------------- *)
-  (* B. one cell                                                                         *)
+  (* B. one cell, one traversal                                                          *)
 
   Variable q0 : cell.
+
+  Definition cov0 (s : root) : Prop := covered (r_damage s) q0.
+
+  Section one_tree.
   Variable V : Z -> bool.
+  Variable P : Z -> option Z.
   Variable T0 : wtree.
   Variable Gd : root -> Prop.
 
   Definition RelSet : list Z := rel_ids V T0 q0.
-  Definition cov0 (s : root) : Prop := covered (r_damage s) q0.
-  Definition OKs (s : root) : Prop := forall x, In x RelSet -> vis_now s x = V x.
+  (* still where the walked tree has it, and visible *)
+  Definition att (s : root) (x : Z) : bool := opt_is (f_parent s x) (P x) && vis_now s x.
+  Definition OKs (s : root) : Prop := forall x, In x RelSet -> att s x = V x.
   Definition St (s s' : root) : Prop :=
     r_fault s' = false -> ~ cov0 s' -> r_fault s = false /\ ~ cov0 s /\ (OKs s -> OKs s').
+  (* P gives the parents in t *)
+  Definition ParOK (t : wtree) : Prop :=
+    forall n c, subtree n t -> In c (t_kids n) -> P (t_id c) = Some (t_id n).
 
-  Hypothesis Gd_skel : forall s, Gd s -> skel (r_tree s) = skel T0.
   Hypothesis Hstep : forall id r sb, Gd (fst sb) -> Gd (fst (rh id r sb)) /\ St (fst sb) (fst (rh id r sb)).
 
   Lemma St_refl s : St s s.
@@ -254,17 +319,10 @@ Section trav.
     split; [exact HG|apply St_refl].
   Qed.
 
-  Lemma kids_step r l sb :
-    Gd (fst sb) -> Gd (fst (expose_kids_re rh r l sb)) /\ St (fst sb) (fst (expose_kids_re rh r l sb)).
+  Lemma kids_step pid r l sb :
+    Gd (fst sb) -> Gd (fst (expose_kids_re rh pid r l sb)) /\ St (fst sb) (fst (expose_kids_re rh pid r l sb)).
   Proof.
     intros HG. apply (expose_kids_re_fst_inv (fun x => Gd x /\ St (fst sb) x) rh (rh_keeps_step (fst sb))).
-    split; [exact HG|apply St_refl].
-  Qed.
-
-  Lemma flush_step rects sb :
-    Gd (fst sb) -> Gd (fst (flush_rb_re rh rects sb)) /\ St (fst sb) (fst (flush_rb_re rh rects sb)).
-  Proof.
-    intros HG. apply (flush_rb_re_fst_inv (fun x => Gd x /\ St (fst sb) x) rh (rh_keeps_step (fst sb))).
     split; [exact HG|apply St_refl].
   Qed.
 
@@ -275,45 +333,71 @@ Section trav.
     - split; [exact HG|apply St_refl].
   Qed.
 
+  Lemma ParOK_kid i ch c : ParOK (Node i ch) -> In c ch -> ParOK c /\ P (t_id c) = Some (w_id i).
+  Proof.
+    intros H Hc. split.
+    - intros n c' Hn Hc'. apply H; [|exact Hc']. eapply sub_kid; eassumption.
+    - apply (H (Node i ch) c); [constructor|exact Hc].
+  Qed.
+
+  (* for an entry of the child list of window pid: attached-and-visible is what the loop tests *)
+  Lemma att_tests s pid c : P (t_id c) = Some pid ->
+    att s (w_id (t_info c)) = child_now s pid (w_id (t_info c)) && vis_now s (w_id (t_info c)).
+  Proof. intros HP. unfold att, child_now. fold (t_id c). rewrite HP. reflexivity. Qed.
+
   Definition paints_q0 (t : wtree) : Prop :=
-    forall r s b, pre b r -> Gd s -> OKs s ->
+    forall r s b, pre b r -> ParOK t -> Gd s -> OKs s ->
       (forall x, In x (rel_ids V t (rel b q0)) -> In x RelSet) ->
       rb_drawable b q0 = true ->
       let sb' := do_expose_re rh t r (s, b) in
       r_fault (fst sb') = false -> ~ cov0 (fst sb') ->
       rb_cells (snd sb') q0 = paint_val app (own V t (rel b q0)).
 
-  Lemma kids_q0 r l :
-    Forall paints_q0 l -> forall s b, pre b r -> Gd s -> OKs s ->
+  Lemma kids_q0 pid r l :
+    Forall paints_q0 l -> (forall c, In c l -> ParOK c /\ P (t_id c) = Some pid) ->
+    forall s b, pre b r -> Gd s -> OKs s ->
       (forall x, In x (rel_kids V l (rel b q0)) -> In x RelSet) ->
       rb_drawable b q0 = true ->
-      let sb' := expose_kids_re rh r l (s, b) in
+      let sb' := expose_kids_re rh pid r l (s, b) in
       r_fault (fst sb') = false -> ~ cov0 (fst sb') ->
       match first_own V l (rel b q0) with
       | Some x => rb_cells (snd sb') q0 = paint_val app x /\ rb_drawable (snd sb') q0 = false
       | None => rb_drawable (snd sb') q0 = true
       end.
   Proof.
-    induction 1 as [|c rest Hc Hrest IH]; intros s b Hpre HG HO Hrel Hd.
+    induction 1 as [|c rest Hc Hrest IH]; intros Hpar s b Hpre HG HO Hrel Hd.
     - cbn [expose_kids_re first_own snd]. intros _ _. exact Hd.
     - cbv zeta. rewrite expose_kids_re_cons. cbn [first_own].
+      assert (Hpar' : forall c0, In c0 rest -> ParOK c0 /\ P (t_id c0) = Some pid).
+      { intros c0 Hin. apply Hpar. right; exact Hin. }
+      destruct (Hpar c (or_introl eq_refl)) as [Hparc HPc].
       assert (Hrel' : forall x, In x (rel_kids V rest (rel b q0)) -> In x RelSet).
       { intros x Hx. apply Hrel. apply rel_kids_tail. exact Hx. }
+      pose proof (IH Hpar' s b Hpre HG HO Hrel' Hd) as IHskip.
       destruct (cell_inb (w_rect (t_info c)) (rel b q0)) eqn:Hin.
-      + (* the child's rectangle contains q0: its flag matters, and the state reads V there *)
+      + (* the child's rectangle contains q0: its flags matter, and the state reads V there *)
         destruct (rel_kids_in V (c :: rest) c (rel b q0) (or_introl eq_refl) Hin) as [Hidc Hsubc].
-        assert (Ev : vis_now s (w_id (t_info c)) = V (w_id (t_info c))).
+        assert (Ev : att s (w_id (t_info c)) = V (w_id (t_info c))).
         { apply HO. apply Hrel. exact Hidc. }
-        rewrite Ev. destruct (V (w_id (t_info c))) eqn:Hv; cbn [negb andb].
-        2:{ apply (IH s b Hpre HG HO Hrel' Hd). }
+        rewrite (att_tests s pid c HPc) in Ev.
+        destruct (V (w_id (t_info c))) eqn:Hv; cbn [andb].
+        2:{ destruct (child_now s pid (w_id (t_info c))); cbn [negb andb] in *; [|exact IHskip].
+            rewrite Ev. cbn [negb]. exact IHskip. }
+        apply andb_true_iff in Ev. destruct Ev as [Ek Evis]. rewrite Ek, Evis. cbn [negb].
         set (o := kid_out c r s b).
-        set (b4 := rb_mask_rect (snd o) (w_rect (t_info c))).
+        set (b4 := kid_masked pid c o).
         intros Hf Hcv.
         destruct (kid_out_step c r s b HG) as [HG1 HS1]. fold o in HG1, HS1.
-        destruct (kids_step r rest (fst o, b4) HG1) as [_ HS2]. cbn [fst] in HS2.
+        destruct (kids_step pid r rest (fst o, b4) HG1) as [_ HS2]. cbn [fst] in HS2.
         destruct (HS2 Hf Hcv) as (Hf1 & Hcv1 & _).
-        destruct (kid_step c r s b (do_expose_re_frame c) Hpre) as (Hp4 & Hf4 & Hm4 & _ & Hx4).
-        fold o b4 in Hp4, Hf4, Hm4, Hx4.
+        destruct (HS1 Hf1 Hcv1) as (_ & _ & HO1). specialize (HO1 HO).
+        (* the child is still a child after its expose: it gets masked *)
+        assert (Ek1 : child_now (fst o) pid (w_id (t_info c)) = true).
+        { assert (E1 : att (fst o) (w_id (t_info c)) = true).
+          { rewrite <- Hv. apply HO1. apply Hrel. exact Hidc. }
+          rewrite (att_tests (fst o) pid c HPc) in E1. apply andb_true_iff in E1. tauto. }
+        destruct (kid_step pid c r s b (do_expose_re_frame c) Hpre) as (Hp4 & Hf4 & _ & Hm4 & _ & Hx4).
+        fold o b4 in Hp4, Hf4, Hm4, Hx4. rewrite Ek1 in Hm4.
         destruct (r_intersect r (w_rect (t_info c))) as [ex|] eqn:Hex.
         2:{ pose proof (child_none_drawable b r c Hpre q0 Hex) as Hn. rewrite Hd, Hin in Hn. discriminate. }
         (* the child paints q0 *)
@@ -325,7 +409,7 @@ Section trav.
                                      (s, child_frame b ex (top (w_rect (t_info c))) (left (w_rect (t_info c)))))).
           { subst o. unfold kid_out. rewrite Hex. reflexivity. }
           rewrite <- (child_rel b c ex q0).
-          apply (Hc _ s _ (child_pre b r c Hpre ex Hex) HG HO).
+          apply (Hc _ s _ (child_pre b r c Hpre ex Hex) Hparc HG HO).
           - intros x Hx. rewrite (child_rel b c ex q0) in Hx. apply Hrel. apply Hsubc; [exact Hv|exact Hx].
           - rewrite (child_drawable b r c Hpre ex q0 Hex), Hd, Hin. reflexivity.
           - rewrite <- Eo. exact Hf1.
@@ -334,42 +418,44 @@ Section trav.
         { rewrite drawable_spec, Hm4. rewrite (drawable_mask_none b q0 Hd), Hin.
           destruct Hpre as (_ & Hci & _). rewrite (Hci q0 (drawable_in_clip b q0 Hd)). cbn [andb].
           apply andb_false_r. }
-        destruct (kids_frame r rest (Forall_impl _ (fun t _ => do_expose_re_frame t) Hrest) (fst o) b4 Hp4)
+        destruct (kids_frame pid r rest (Forall_impl _ (fun t _ => do_expose_re_frame t) Hrest) (fst o) b4 Hp4)
           as (_ & Hf5 & Hg5 & Hc5).
         split.
         * rewrite (Hc5 q0 Hnd4). exact Hcell.
         * apply (nondrawable_mono b4 _ q0 Hf5 Hg5 Hnd4).
       + (* q0 lies outside the child: whatever happens there leaves q0 alone *)
         rewrite andb_false_r.
-        destruct (negb (vis_now s (w_id (t_info c)))); [apply (IH s b Hpre HG HO Hrel' Hd)|].
+        destruct (negb (child_now s pid (w_id (t_info c)))); [exact IHskip|].
+        destruct (negb (vis_now s (w_id (t_info c)))); [exact IHskip|].
         set (o := kid_out c r s b).
-        set (b4 := rb_mask_rect (snd o) (w_rect (t_info c))).
+        set (b4 := kid_masked pid c o).
         intros Hf Hcv.
         destruct (kid_out_step c r s b HG) as [HG1 HS1]. fold o in HG1, HS1.
-        destruct (kids_step r rest (fst o, b4) HG1) as [_ HS2]. cbn [fst] in HS2.
+        destruct (kids_step pid r rest (fst o, b4) HG1) as [_ HS2]. cbn [fst] in HS2.
         destruct (HS2 Hf Hcv) as (Hf1 & Hcv1 & _).
         destruct (HS1 Hf1 Hcv1) as (_ & _ & HO1).
-        destruct (kid_step c r s b (do_expose_re_frame c) Hpre) as (Hp4 & Hf4 & Hm4 & _ & _).
+        destruct (kid_step pid c r s b (do_expose_re_frame c) Hpre) as (Hp4 & Hf4 & _ & Hm4 & _ & _).
         fold o b4 in Hp4, Hf4, Hm4.
         assert (Hd4 : rb_drawable b4 q0 = true).
         { rewrite drawable_spec, (same_frame_in_clip _ _ q0 Hf4), Hm4.
-          rewrite (drawable_in_clip b q0 Hd), (drawable_mask_none b q0 Hd), Hin. reflexivity. }
-        pose proof (IH (fst o) b4 Hp4 HG1 (HO1 HO)) as HI. cbv zeta in HI.
+          rewrite (drawable_in_clip b q0 Hd), (drawable_mask_none b q0 Hd), Hin.
+          destruct (child_now (fst o) pid (w_id (t_info c))); reflexivity. }
+        pose proof (IH Hpar' (fst o) b4 Hp4 HG1 (HO1 HO)) as HI. cbv zeta in HI.
         rewrite (same_frame_rel _ _ q0 Hf4) in HI. apply (HI Hrel' Hd4 Hf Hcv).
   Qed.
 
   Theorem do_expose_re_q0 : forall t, paints_q0 t.
   Proof.
-    apply (wtree_ind2 paints_q0). intros i ch Hch r s b Hpre HG HO Hrel Hd. cbv zeta.
+    apply (wtree_ind2 paints_q0). intros i ch Hch r s b Hpre Hpar HG HO Hrel Hd. cbv zeta.
     rewrite do_expose_re_unfold. intros Hf Hcv.
-    set (sbk := expose_kids_re rh r ch (s, b)) in *.
-    destruct (kids_step r ch (s, b) HG) as [HGk _]. fold sbk in HGk.
+    set (sbk := expose_kids_re rh (w_id i) r ch (s, b)) in *.
+    destruct (kids_step (w_id i) r ch (s, b) HG) as [HGk _]. fold sbk in HGk.
     destruct (Hstep (w_id i) r sbk HGk) as [_ HSh].
     destruct (HSh Hf Hcv) as (Hfk & Hcvk & _).
     rewrite rel_ids_unfold in Hrel.
-    pose proof (kids_q0 r ch Hch s b Hpre HG HO Hrel Hd) as HK. cbv zeta in HK. fold sbk in HK.
-    specialize (HK Hfk Hcvk).
-    destruct (kids_frame r ch (Forall_impl _ (fun t _ => do_expose_re_frame t) Hch) s b Hpre) as (_ & Hf1 & _ & _).
+    pose proof (kids_q0 (w_id i) r ch Hch (fun c Hc => ParOK_kid i ch c Hpar Hc) s b Hpre HG HO Hrel Hd) as HK.
+    cbv zeta in HK. fold sbk in HK. specialize (HK Hfk Hcvk).
+    destruct (kids_frame (w_id i) r ch (Forall_impl _ (fun t _ => do_expose_re_frame t) Hch) s b Hpre) as (_ & Hf1 & _ & _).
     fold sbk in Hf1.
     rewrite Hsnd. destruct (paint_handler_fields app (w_id i) r (snd sbk)) as (_ & _ & Hc2).
     rewrite Hc2, own_unfold.
@@ -379,41 +465,94 @@ Section trav.
       destruct Hpre as (_ & _ & Hw). specialize (Hw q0 Hd). apply cell_inb_iff in Hw. rewrite Hw.
       reflexivity.
   Qed.
+  End one_tree.
 
-  (* the render loop *)
-  Theorem flush_re_q0 L C : forall rects s b, flush_state L C b -> Gd s -> OKs s ->
+  (* ---------------------------------------------------------------------------------- *)
+  (* C. the render loop                                                                  *)
+
+  Variable G0 : root -> Prop.
+  Variable GdT : wtree -> (Z -> option Z) -> root -> Prop.
+
+  Definition St0 (s s' : root) : Prop :=
+    r_fault s' = false -> ~ cov0 s' ->
+    r_fault s = false /\ ~ cov0 s /\ owner_rel (r_tree s') q0 = owner_rel (r_tree s) q0.
+
+  (* a rectangle starts on the tree of the current state, with the parents and flags of that state *)
+  Hypothesis H_start : forall s, G0 s ->
+    GdT (r_tree s) (f_parent s) s /\ ParOK (f_parent s) (r_tree s) /\ Vok (vis_now s) (r_tree s) /\
+    OKs (vis_now s) (f_parent s) (r_tree s) s.
+  Hypothesis H_step : forall T P V id r sb, GdT T P (fst sb) ->
+    GdT T P (fst (rh id r sb)) /\ St V P T (fst sb) (fst (rh id r sb)).
+  Hypothesis H_step0 : forall id r sb, G0 (fst sb) -> G0 (fst (rh id r sb)) /\ St0 (fst sb) (fst (rh id r sb)).
+
+  Lemma St0_refl s : St0 s s.
+  Proof. intros Hf Hc. tauto. Qed.
+
+  Lemma St0_trans a b c : St0 a b -> St0 b c -> St0 a c.
+  Proof.
+    intros Hab Hbc Hf Hc. destruct (Hbc Hf Hc) as (Hfb & Hcb & Hob).
+    destruct (Hab Hfb Hcb) as (Hfa & Hca & Hoa). split; [exact Hfa|]. split; [exact Hca|congruence].
+  Qed.
+
+  Lemma rh_keeps_step0 s0 : rh_keeps (fun x => G0 x /\ St0 s0 x) rh.
+  Proof.
+    intros id r sb [HG HS]. destruct (H_step0 id r sb HG) as [HG' HS'].
+    split; [exact HG'|]. eapply St0_trans; eassumption.
+  Qed.
+
+  Lemma trav_step0 t r sb :
+    G0 (fst sb) -> G0 (fst (do_expose_re rh t r sb)) /\ St0 (fst sb) (fst (do_expose_re rh t r sb)).
+  Proof.
+    intros HG. apply (do_expose_re_fst_inv (fun x => G0 x /\ St0 (fst sb) x) rh (rh_keeps_step0 (fst sb))).
+    split; [exact HG|apply St0_refl].
+  Qed.
+
+  Lemma flush_step0 rects sb :
+    G0 (fst sb) -> G0 (fst (flush_rb_re rh rects sb)) /\ St0 (fst sb) (fst (flush_rb_re rh rects sb)).
+  Proof.
+    intros HG. apply (flush_rb_re_fst_inv (fun x => G0 x /\ St0 (fst sb) x) rh (rh_keeps_step0 (fst sb))).
+    split; [exact HG|apply St0_refl].
+  Qed.
+
+  Theorem flush_re_q0 L C : forall rects s b, flush_state L C b -> G0 s ->
     let sb' := flush_rb_re rh rects (s, b) in
     r_fault (fst sb') = false -> ~ cov0 (fst sb') ->
     rb_cells (snd sb') q0 =
-    if rb_full L C q0 && in_any rects q0 then paint_val app (own V T0 q0) else rb_cells b q0.
+    if rb_full L C q0 && in_any rects q0
+    then paint_val app (owner_rel (r_tree (fst sb')) q0) else rb_cells b q0.
   Proof.
-    induction rects as [|R rest IH]; intros s b Hfs HG HO.
+    induction rects as [|R rest IH]; intros s b Hfs HG.
     - cbv zeta. unfold flush_rb_re, in_any. cbn [fold_left fst snd existsb]. intros _ _.
       rewrite andb_false_r. reflexivity.
     - cbv zeta. unfold flush_rb_re. cbn [fold_left fst snd]. fold (rect_frame b R).
       set (sb1 := do_expose_re rh (r_tree s) R (s, rect_frame b R)).
       change (fold_left _ rest (fst sb1, rb_restore (snd sb1)))
         with (flush_rb_re rh rest (fst sb1, rb_restore (snd sb1))).
+      set (sbL := flush_rb_re rh rest (fst sb1, rb_restore (snd sb1))).
       intros Hf Hcv.
       destruct (rect_frame_pre L C b R Hfs) as (Hpre & Hdr & Hrel & Hcells).
       destruct (do_expose_re_frame (r_tree s) R s (rect_frame b R) Hpre) as (Hfr & Hg & Hc).
       fold sb1 in Hfr, Hg, Hc.
       destruct (rect_restore L C b R _ Hfs Hfr Hg) as (Hfs' & Hc').
-      destruct (trav_step (r_tree s) R (s, rect_frame b R) HG) as [HG1 HS1]. fold sb1 in HG1, HS1. cbn [fst] in HS1.
-      destruct (flush_step rest (fst sb1, rb_restore (snd sb1)) HG1) as [_ HS2]. cbn [fst] in HS2.
-      destruct (HS2 Hf Hcv) as (Hf1 & Hcv1 & _).
-      destruct (HS1 Hf1 Hcv1) as (_ & _ & HO1).
-      rewrite (IH (fst sb1) (rb_restore (snd sb1)) Hfs' HG1 (HO1 HO) Hf Hcv).
+      destruct (trav_step0 (r_tree s) R (s, rect_frame b R) HG) as [HG1 HS1]. fold sb1 in HG1, HS1. cbn [fst] in HS1.
+      destruct (flush_step0 rest (fst sb1, rb_restore (snd sb1)) HG1) as [_ HS2]. fold sbL in HS2. cbn [fst] in HS2.
+      destruct (HS2 Hf Hcv) as (Hf1 & Hcv1 & Hown2).
+      destruct (HS1 Hf1 Hcv1) as (_ & _ & Hown1).
+      pose proof (IH (fst sb1) (rb_restore (snd sb1)) Hfs' HG1) as HI. cbv zeta in HI. fold sbL in HI.
+      rewrite (HI Hf Hcv).
       unfold in_any; cbn [existsb]. fold (in_any rest q0).
       destruct (rb_full L C q0) eqn:Efull; cbn [andb].
       2:{ rewrite Hc', Hc, Hcells; [reflexivity|]. rewrite Hdr, Efull. reflexivity. }
       destruct (in_any rest q0); [rewrite orb_true_r; reflexivity|]. rewrite orb_false_r.
       rewrite Hc'. destruct (cell_inb R q0) eqn:EinR.
-      + pose proof (do_expose_re_q0 (r_tree s) R s (rect_frame b R) Hpre HG HO) as HP. cbv zeta in HP.
-        fold sb1 in HP. rewrite Hrel in HP.
+      + destruct (H_start s HG) as (HGd & Hpar & Hvok & HO).
+        pose proof (do_expose_re_q0 (vis_now s) (f_parent s) (r_tree s) (GdT (r_tree s) (f_parent s))
+                      (H_step (r_tree s) (f_parent s) (vis_now s))
+                      (r_tree s) R s (rect_frame b R) Hpre Hpar HGd HO) as HP.
+        cbv zeta in HP. fold sb1 in HP. rewrite Hrel in HP.
         rewrite HP.
-        * rewrite (own_skel V T0 (r_tree s) q0 (Gd_skel s HG)). reflexivity.
-        * intros x Hx. unfold RelSet. rewrite <- (rel_ids_skel V T0 (r_tree s) q0 (Gd_skel s HG)). exact Hx.
+        * rewrite (own_self (vis_now s) (r_tree s) Hvok q0). rewrite Hown2, Hown1. reflexivity.
+        * intros x Hx. exact Hx.
         * rewrite Hdr, Efull, EinR. reflexivity.
         * exact Hf1.
         * exact Hcv1.
